@@ -14,7 +14,17 @@ This module
       concrete rotation and mirror, plus node / weight symmetry and the `TrigTable` reading of `basis.f`;
   (c) evaluates the property itself on the real code: transformed states (and orography, tracers) against transformed
       tendencies (explicit, implicit, implicit_inverse) and short trajectories, all equation classes, several
-      integrators and filters, both spherical-harmonic implementations, gauss and equiangular latitudes.
+      integrators and filters, both spherical-harmonic implementations, gauss and equiangular latitudes;
+  (c') the same on PADDED layouts of FastSphericalHarmonics (`base_shape_multiple` in {4, 5, 8}: latitude nodes,
+      longitude nodes and both modal axes padded; the paddings are recorded in every probe input).  There the
+      symmetry acts on the modal state / orography only (`PadSym`: rotation of the real (cos, sin) rows by
+      2 pi m k / longitude_nodes, sign (-1)^(l+m) on the real entries, padding untouched) and the comparison is on
+      the resolved coefficients (`grid.mask`); `PadSym` is checked on every run against the roll / flip actions of
+      (a) - (c) on an unpadded fast grid, and against the same permutation of the block of real nodes on the padded
+      ones.  Shallow water (1 - 2 layers, with / without orography) and primitive equations (dry; moist in
+      thorough); quick: one latitude-padded grid for the mirror and one longitude-padded grid for the rotation per
+      run, rotated by the seed; thorough: the whole table plus T21 / with_wavenumbers(22) with base 5 / 8.
+      Measured on the unchanged tree: <= 2.2e-14.
 
 Tolerances.  Measured on the unchanged tree (float64): operator hypotheses of (b) <= 3e-14, (c) <= 2e-13 relative
 to the leaf scale (typically 1e-15 .. 7e-15).  The thresholds are 1e-10 for (b) and 1e-9 for (c): four orders above
@@ -43,7 +53,9 @@ RULE = ('grids: (M, L, N, J) from a table with corner sizes (M = 1, N = 1, 2; J 
         'mirror; data: standard normal spectra (masked and unmasked) and nodal fields; equation objects: random '
         'uneven sigma levels (1..6 layers), random orography, reference temperature profile, tracers; a case is '
         'non-trivial when the symmetry is not the identity (k mod N != 0) and the field has a non-zonal or '
-        'hemispherically asymmetric part; distinct = distinct (grid, symmetry, op / class / integrator, data) hashes')
+        'hemispherically asymmetric part; padded fast layouts (base_shape_multiple 4, 5, 8; latitude / longitude / '
+        'modal padding) with the modal action of the symmetry; distinct = distinct (grid, symmetry, op / class / '
+        'integrator, data) hashes')
 
 Q_KEY = 'specific_humidity'
 QL_KEY = 'specific_cloud_liquid_water_content'
@@ -1076,7 +1088,10 @@ def run(ctx: common.Ctx):
       'trig_tables_exist), so that the unrotated (+0, -0) pair of the fast layout stays put',
       'padding: the fast-basis statements are proved with padding of the axes the symmetry does NOT act on (rotation: '
       'longitude-node padding 0; mirror: latitude-node padding 0): np.roll / a flip of a padded nodal axis is not the '
-      'symmetry; the probes use unpadded nodal layouts of the transformed axis',
+      'symmetry; the probes of (c) use unpadded nodal layouts, those on padded layouts (section c-prime, any axis '
+      'padded) apply the symmetry to the modal state only (PadSym), which is checked against roll / flip on an '
+      'unpadded grid and against the permutation of the block of real nodes on the padded ones (key '
+      'probe:pad:action-vs-nodal)',
       'hdiv (rho_N (a / b) = rho_N a / rho_N b) and the algebra-homomorphism part of rho_N are hypotheses of every '
       'moist / cloud statement and of pe_trajectory_equivariant: validated exactly (bit for bit) for roll and flip in '
       'section (b), keys hyp:hdiv, hyp:rhoN-mul, hyp:rhoN-one',
